@@ -174,6 +174,50 @@ class StripLocalAnnotations(ast.NodeTransformer):
         return node
 
 
+class ReorderKeywords(ast.NodeTransformer):
+    """Reverse the order of keyword arguments in every call (evaluation order of side-effect-free arguments)."""
+
+    def visit_Call(self, node):
+        self.generic_visit(node)
+        if len(node.keywords) >= 2 and all(k.arg is not None for k in node.keywords) and all(isinstance(k.value, (ast.Name, ast.Constant, ast.Attribute)) for k in node.keywords):
+            node.keywords = list(reversed(node.keywords))
+        return node
+
+
+class AnnotateLocals(ast.NodeTransformer):
+    """The first plain assignment of every local becomes an annotated assignment (`x: "object" = v`)."""
+
+    def visit_FunctionDef(self, node):
+        self.generic_visit(node)
+        seen = set()
+        params = {a.arg for a in node.args.posonlyargs + node.args.args + node.args.kwonlyargs}
+        declared = set()
+        for n in ast.walk(node):
+            if isinstance(n, (ast.Global, ast.Nonlocal)):
+                declared |= set(n.names)
+
+        def fix(body):
+            out = []
+            for st in body:
+                if (isinstance(st, ast.Assign) and len(st.targets) == 1 and isinstance(st.targets[0], ast.Name) and st.targets[0].id not in seen
+                        and st.targets[0].id not in params and st.targets[0].id not in declared):
+                    seen.add(st.targets[0].id)
+                    out.append(ast.copy_location(ast.AnnAssign(target=st.targets[0], annotation=ast.Constant(value="object"), value=st.value, simple=1), st))
+                else:
+                    if isinstance(st, ast.Assign):
+                        for t in st.targets:
+                            for x in ast.walk(t):
+                                if isinstance(x, ast.Name):
+                                    seen.add(x.id)
+                    out.append(st)
+            return out
+
+        node.body = fix(node.body)
+        return node
+
+    visit_AsyncFunctionDef = visit_FunctionDef
+
+
 class SqlWhitespace(ast.NodeTransformer):
     """Collapse runs of whitespace inside SQL string constants (line-comment free ones only)."""
 
@@ -207,6 +251,12 @@ def make_variant(kind, dst):
         elif kind == "strip-local-annotations":
             tree = StripLocalAnnotations().visit(tree)
             ast.fix_missing_locations(tree)
+        elif kind == "reorder-keywords":
+            tree = ReorderKeywords().visit(tree)
+            ast.fix_missing_locations(tree)
+        elif kind == "annotate-locals":
+            tree = AnnotateLocals().visit(tree)
+            ast.fix_missing_locations(tree)
         elif kind == "messages":
             tree = EditMessages().visit(tree)
             ast.fix_missing_locations(tree)
@@ -228,7 +278,7 @@ def run_check(args):
 
 
 def main():
-    kinds = sys.argv[1:] or ["reformat", "rename-locals", "add-statement", "sql-whitespace", "rename+add", "messages", "strip-local-annotations", "return-temp"]
+    kinds = sys.argv[1:] or ["reformat", "rename-locals", "add-statement", "sql-whitespace", "rename+add", "messages", "strip-local-annotations", "return-temp", "reorder-keywords", "annotate-locals"]
     tmp = pathlib.Path(tempfile.mkdtemp(prefix="verif_benign_"))
     try:
         for kind in kinds:
